@@ -6,16 +6,25 @@ the keyed pads are wiped when the computation finishes.
      HashStream machine, against the RFC 2104 equation over an UNINTERPRETED hash (free term algebra), B=4, every key over
      two symbols of length 0..B+2 plus one key of each length up to 3B, messages <= B+1 in <=3 update calls:
      mac = HmacRFC, key>block branch exactly for longer keys, k_opad zero and context empty at final.
-(ii) harness/hash_drv.c runs hmac_*_init/_update/_final, the one-shot and the hex-string entry points in every build
-     variant for key lengths {0,1,B-1,B,B+1,2B,3B} (+ more in the thorough tier), TLC-generated chunkings scaled to the
-     real block size, seeded content and alignments; it records k_opad after init, count/buffer after each update, the MAC,
-     and whether k_opad and the hash context are all-zero after final.
+(ii) harness/hmac_drv.c (harness/hash_drv.c + explicit variant argument + pad probe) runs hmac_*_init/_update/_final, the
+     one-shot and the hex-string entry points in every build variant for key lengths {0,1,B-1,B,B+1,2B,3B} (+ more in the
+     thorough tier) UNDER EVERY ACCEPTED SPELLING OF THE VARIANT ARGUMENT (specs/crypto/HmacPads.tla, HpArgs: digest size
+     in bits or in bytes for the SHA-2 and GOST entry points), TLC-generated chunkings scaled to the real block size,
+     seeded content and alignments; it records k_opad after init, count/buffer after each update, the MAC, and whether
+     k_opad and the hash context are all-zero after final.
 (iii) TLC (specs/crypto/TraceHash.tla) replays every run: k_opad after init = K0 xor 0x5c.., inner stream count/buffer
-     after each call, MAC of all three entry points = HmacRFC over the concrete TLA+ hash references, pads wiped."""
-import random
+     after each call, MAC of all three entry points = HmacRFC over the concrete TLA+ hash references, pads wiped.  One
+     trace record per input carries the observations of every (build, spelling): the reference is evaluated once.
+(iv) pad residue: TLC (HmacPads!HpPads) computes K0 xor ipad / K0 xor opad for seeded keys shorter than, equal to and
+     longer than the block; in every build without a sanitizer the driver runs init alone, init+update+final, the one-shot
+     and the hex entry point far below a probing frame and searches the dead stack (and the finished context) for the two
+     complete pads.  Any hit is `<alg>[<build>]:hmac:pad-residue-on-stack` / `...:pad-residue-in-context`."""
+import json, os, random, time
 from concurrent.futures import ThreadPoolExecutor
 from rig import common, hashrig
-from rig.hashrig import ALGS, COST_MS
+from rig.hashrig import ALGS, COST_MS, VARIANTS, hexs, ints
+
+DRV = os.path.join(common.VERIF, "harness", "hmac_drv.c")
 
 def model_check(ctx):
     r = common.tlc("MCHmac", cfg="MCHmac.cfg" if ctx.quick else "MCHmacThorough.cfg", workers=4, coverage=True, timeout=1500)
@@ -31,6 +40,120 @@ def model_check(ctx):
             raise common.Infra("vacuity witness %s not reachable (rc=%s)" % (cfg, r.rc))
         ctx.add(reachability_witnesses=1)
 
+def build_all(ctx, matrix):
+    """hashrig.build_all for harness/hmac_drv.c; returns [(name, exe, sanitizer)]"""
+    d = common.scratch("lcbv-hmac-")
+    def one(spec):
+        v, comp, opt, san = spec
+        name = "%s-%s%s%s" % (v, comp, opt, "-asan" if san else "")
+        defs, flags = VARIANTS[v]
+        exe = os.path.join(d, name)
+        common.cc([DRV], exe, compiler=comp, opt=opt, defs=defs, flags=flags, hooks=False, san=san, timeout=900)
+        return name, exe, san
+    t0 = time.time()
+    with ThreadPoolExecutor(max_workers=4) as ex:
+        res = list(ex.map(one, matrix))
+    ctx.log("built %d driver variants in %.1fs" % (len(res), time.time() - t0))
+    return res
+
+# ------------------------------------------------------------------ specification side: variant spellings, keyed pads
+def probe_keys(ctx, rnd):
+    """seeded keys for the residue probe: shorter than / exactly / longer than one block for every variant.  Keys of
+    fewer than 8 bytes are left out: their pads are (almost) the constants 0x36.. / 0x5c.., finding those bytes
+    somewhere would not show keyed material (the SSE SHA-1 schedule of an all-0x36 block is that block)."""
+    ks = []
+    for alg, (B, L, fam) in ALGS.items():
+        lens = [rnd.randint(8, B - 1), B, rnd.randint(B + 1, 3 * B)]
+        if not ctx.quick: lens += [8, B - 1, B + 1, 2 * B, 3 * B]
+        for kl in lens:
+            ks.append({"alg": alg, "key": hashrig.rbytes(rnd, kl), "msg": hashrig.rbytes(rnd, rnd.choice([0, 1, B - 1, B, B + 3, 2 * B + 5]))})
+    return ks
+
+def spec_contract(ctx, keys):
+    """one TLC run of HmacPads: the table of accepted variant-argument spellings and the pads of `keys`"""
+    d = common.scratch("lcbv-hpads-")
+    path = os.path.join(d, "keys.ndjson")
+    with open(path, "w") as f:
+        for k in keys:
+            f.write(json.dumps({"alg": k["alg"], "key": list(k["key"])}, separators=(",", ":")) + "\n")
+    r = common.tlc("HmacPads", workers=4, xss="256m", env={"TRACE": path}, timeout=900, xmx="4g")
+    if r.rc != 0 or r.distinct != 2 * len(keys):
+        raise common.Infra("HmacPads rc=%s, %d distinct states for %d keys\n%s" % (r.rc, r.distinct, len(keys), r.out[-2500:]))
+    printed = common.tlc_printed_json(r.out)
+    tab = [x for x in printed if isinstance(x, dict) and "variants" in x]
+    pads = {x["tid"]: x for x in printed if isinstance(x, dict) and "ipad" in x}
+    if len(tab) != 1 or len(pads) != len(keys):
+        raise common.Infra("HmacPads printed %d tables, %d pad records for %d keys" % (len(tab), len(pads), len(keys)))
+    args = {}
+    for v in tab[0]["variants"]:
+        if v["alg"] not in ALGS or v["block"] != ALGS[v["alg"]][0]:
+            raise common.Infra("HmacPads variant table and rig.hashrig.ALGS disagree on %s" % v)
+        args[v["alg"]] = [str(a) for a in v["args"]] or ["-"]
+    if set(args) != set(ALGS):
+        raise common.Infra("HmacPads variant table does not list the variants of the rig: %s" % sorted(args))
+    for i, k in enumerate(keys):
+        p = pads[i + 1]
+        if p["rfc"] is not True:
+            raise common.Infra("specification self-check failed: HpPads is not what HmacRFC is built from (%s, key %s)" % (k["alg"], k["key"].hex()))
+        k["ipad"] = bytes(p["ipad"]); k["opad"] = bytes(p["opad"])
+    return args, r          # (the caller records r: ctx is updated from the main thread only)
+
+# ------------------------------------------------------------------ (iv) residue probe
+def residue_probe(ctx, builds, keys, args):
+    targets = [(b, exe) for b, exe, san in builds if not san]
+    first = {}; nprobe = 0; depth = {}; unjudged = {}
+    for bname, exe in targets:
+        # After init ALONE the search also sees what the compression function left of the block it was given (= the
+        # inner pad).  Optimised code keeps that in registers; -O0 code with SSE/AVX/SHA-NI intrinsics spills it, and
+        # the next block overwrites it (nothing is left after final in any build: findings_inbox/C07-pad-residue-O0-simd.md).
+        # The property speaks of the moment the computation finishes, so -O0 builds are judged on the three complete
+        # computations only; in optimised builds the init-only search is what exposes an elided wipe of k_ipad.
+        judge_init = "-O0" not in bname
+        lines = ["selftest " + keys[0]["ipad"].hex()]
+        for n, k in enumerate(keys):
+            a = args[k["alg"]]
+            lines.append("probe %s %s %s %s %s %s" % (k["alg"], a[n % len(a)], hexs(k["key"]), hexs(k["msg"]), k["ipad"].hex(), k["opad"].hex()))
+        res = common.batch_run(exe, lines, timeout=300)
+        for ln, a in zip(lines, res):
+            if isinstance(a, dict):
+                alg = ln.split()[1] if ln.startswith("probe") else "probe"
+                ctx.fail("%s:hmac:%s:%s" % (alg, a["crash"][0], a["crash"][1] or "driver"), "build %s\ncase %s\n%s" % (bname, ln[:300], a["raw"]),
+                         {"build": bname, "case": ln})
+                continue
+            try:
+                o = json.loads(a)
+            except Exception:
+                raise common.Infra("driver %s answered garbage for %s: %s" % (bname, ln[:200], a[:300]))
+            if "selftest" in o:
+                if not (o["left"] > 0 and o["wiped"] == 0):
+                    raise common.Infra("residue probe is blind in build %s (self test %s): no verdict possible" % (bname, o))
+                continue
+            if "probe" not in o:
+                raise common.Infra("driver %s refused %s: %s" % (bname, ln[:200], a[:300]))
+            alg = ln.split()[1]; nprobe += 1
+            for m in o["probe"]:
+                if m["mode"] == "init" and not judge_init:
+                    if m["ipad_stack"] or m["opad_stack"]: unjudged[bname] = unjudged.get(bname, 0) + 1
+                    continue
+                depth[m["mode"]] = max(depth.get(m["mode"], 0), m["depth"])
+                # geometry: the library ran below the spacer and inside the prepared region, else the search says nothing
+                if o["spacer"] < 8192 or m["depth"] <= o["spacer"] or m["depth"] >= o["region"]:
+                    raise common.Infra("residue probe geometry: %s/%s reached %d bytes below the probing frame (spacer %d, region %d) in build %s"
+                                       % (alg, m["mode"], m["depth"], o["spacer"], o["region"], bname))
+                for where, fields in (("on-stack", ("ipad_stack", "opad_stack")), ("in-context", ("ipad_ctx", "opad_ctx"))):
+                    if any(m[f] for f in fields):
+                        key = "%s[%s]:hmac:pad-residue-%s" % (alg, bname, where)
+                        first.setdefault(key, []).append({"mode": m["mode"], "found": {f: m[f] for f in fields if m[f]},
+                                                          "bytes_below_probing_frame": m["first"], "key_length": len(ln.split()[3]) // 2 if ln.split()[3] != "-" else 0,
+                                                          "variant_arg": ln.split()[2], "case": ln})
+    for key, occ in first.items():
+        ctx.fail(key, "after the call(s) returned, a complete keyed pad (K0 xor 0x36.. / K0 xor 0x5c.., computed by HmacPads!HpPads) is still readable:\n"
+                 + json.dumps([{k: v for k, v in o.items() if k != "case"} for o in occ[:8]], indent=1), {"driver_line": occ[0]["case"], "build": key.split("[")[1].split("]")[0]})
+    ctx.add(evaluations=nprobe * 4, pad_residue_probes={"builds": [b for b, _ in targets], "keys_per_build": len(keys),
+            "modes": ["init", "stream", "oneshot", "hex"], "deepest_stack_use_seen_bytes": depth,
+            "init_only_mode_not_judged_in_O0_builds_hits": unjudged})
+
+# ------------------------------------------------------------------ (ii)+(iii) scenarios under every spelling, validated by TLC
 def scenarios(ctx, shapes, rnd):
     budget_ms = (30000 if ctx.quick else 500000)
     scen = []; blocks = {}; keylens = {}
@@ -58,27 +181,121 @@ def scenarios(ctx, shapes, rnd):
         blocks[fam] = used
     return scen, blocks, keylens
 
+def run_hmac(ctx, builds, scen, args, tlc_timeout):
+    """hashrig.run_scenarios for HMAC scenarios, each driven once per accepted spelling of the variant argument; the
+    observations of every (build, spelling) of one input go into one TraceHash record (tag build/path@arg)."""
+    def line(s, arg):
+        cs = ",".join(str(c) for c in s["chunks"]) if s["chunks"] else "-"
+        return "hmac %s %d %s %s %s %s" % (s["alg"], s["align"], hexs(s["key"]), hexs(s["msg"]), cs, arg)
+    jobs = [(i, arg) for i, s in enumerate(scen) for arg in args[s["alg"]]]
+    lines = [line(scen[i], arg) for i, arg in jobs]
+    obs = [[] for _ in scen]; paths = {}; nanswers = 0
+    for bname, exe, _ in builds:
+        res = common.batch_run(exe, lines, timeout=600)
+        for (i, arg), ln, a in zip(jobs, lines, res):
+            s = scen[i]
+            if isinstance(a, dict):
+                k = a["crash"]
+                ctx.fail("%s:%s:%s:%s" % (s["alg"], s["kind"], k[0], k[1] or "driver"), "build %s\ncase %s\n%s" % (bname, ln[:300], a["raw"]),
+                         {"build": bname, "case": ln})
+                continue
+            try:
+                o = json.loads(a)
+            except Exception:
+                raise common.Infra("driver %s answered garbage for %s: %s" % (bname, ln[:200], a[:300]))
+            if o.get("consumed") != len(s["msg"]) or len(o.get("ups", ())) != len(s["chunks"]):
+                raise common.Infra("driver %s did not consume the scenario: %s -> %s" % (bname, ln[:200], a[:300]))
+            nanswers += 1
+            pk = (ALGS[s["alg"]][2], o["path"] + ("" if arg == "-" else "/arg-in-" + ("bits" if arg == args[s["alg"]][0] else "bytes")))
+            paths[pk] = paths.get(pk, 0) + 1
+            rec = {"b": ["%s/%s@%s" % (bname, o["path"], arg)], "ups": [{"count": u["count"], "buf": ints(u["buf"])} for u in o["ups"]],
+                   "one": ints(o["one"]), "hex": ints(o["hex"]) if o["hexnul"] else [0], "zero": o["zero"],
+                   "mac": ints(o["mac"]), "kopad": ints(o["kopad"]), "count0": o["count0"], "padzero": o["padzero"]}
+            same = [x for x in obs[i] if all(x[k] == rec[k] for k in rec if k != "b")]
+            if same: same[0]["b"] += rec["b"]
+            else: obs[i].append(rec)
+    d = common.scratch("lcbv-htr-")
+    path = os.path.join(d, "trace.ndjson")
+    kept = []
+    with open(path, "w") as f:
+        for i, (s, ob) in enumerate(zip(scen, obs)):
+            if not ob: continue
+            for o in ob: o["b"] = ",".join(o["b"])
+            off = 0; cs = []
+            for c in s["chunks"]:
+                cs.append(list(s["msg"][off:off + c])); off += c
+            f.write(json.dumps({"k": "hmac", "alg": s["alg"], "cs": cs, "obs": ob, "key": list(s["key"])}, separators=(",", ":")) + "\n")
+            kept.append(i)
+    if not kept:
+        return paths
+    expected_states = sum(len(scen[i]["chunks"]) + 3 for i in kept)
+    r = common.tlc("TraceHash", workers=4, xss="256m", env={"TRACE": path}, timeout=tlc_timeout, xmx="6g")
+    ctx.tlc_stats(r, "TraceHash/hmac")
+    reports = [x for x in common.tlc_printed_json(r.out) if isinstance(x, dict) and "bad" in x]
+    # accounting as in hashrig.run_scenarios: a report at step pos cuts the remaining states of its scenario
+    if r.rc != 0:
+        raise common.Infra("TraceHash rc=%s\n%s" % (r.rc, r.out[-3000:]))
+    missing = sum(len(scen[kept[rp["tid"] - 1]]["chunks"]) + 2 - rp["pos"] for rp in reports)
+    if r.distinct + missing != expected_states or len(set(rp["tid"] for rp in reports)) != len(reports):
+        raise common.Infra("TraceHash consumed %d states (+%d cut by %d reports), expected %d\n%s"
+                           % (r.distinct, missing, len(reports), expected_states, r.out[-1500:]))
+    seen = {}
+    for rp in reports:
+        i = kept[rp["tid"] - 1]; s = scen[i]
+        if rp["bad"].startswith("spec:"):
+            raise common.Infra("specification self-check failed inside TraceHash (spec bug, not a code verdict): %s on %s" % (rp, line(s, "*")[:300]))
+        grp = [(g.split("/")[0], g.split("/")[1].split("@")[0], g.split("@")[1]) for g in rp["build"].split(",")]
+        sargs = args[s["alg"]]
+        gb = set(g[0] for g in grp); ga = set(g[2] for g in grp)
+        # which builds / which spellings of the variant argument disagree with the reference (all of them: "all-builds")
+        bpath = "all-builds" if len(gb) == len(builds) and len(builds) > 1 else "+".join(sorted(set(g[1] for g in grp)))
+        if len(ga) < len(sargs): bpath += ",arg=" + "+".join(sorted(ga, key=int))
+        key = "%s[%s]:%s" % (s["alg"], bpath, rp["bad"])
+        ob = [o for o in obs[i] if o["b"] == rp["build"]]
+        a0 = grp[0][2]
+        detail = {"build": rp["build"], "step": rp["pos"], "what": rp["bad"], "driver_line": line(s, a0)[:2000],
+                  "expected_by_TLA_reference": bytes(rp["expected"]).hex() if rp["expected"] and max(rp["expected"]) < 256 else rp["expected"],
+                  "observed": {k: (bytes(v).hex() if isinstance(v, list) and v and isinstance(v[0], int) else v)
+                               for k, v in (ob[0].items() if ob else []) if k != "ups"},
+                  "observed_updates": [(u["count"], bytes(u["buf"]).hex()) for u in ob[0]["ups"]] if ob else None}
+        seen[key] = seen.get(key, 0) + 1
+        if seen[key] == 1:          # one violation per key; the count of further scenarios with the same key goes to the log
+            ctx.fail(key, json.dumps(detail, indent=1), {"driver_line": line(s, a0), "build": rp["build"], "report": rp})
+    for k, n in seen.items():
+        if n > 1: ctx.log("key %s: %d scenarios failed in total" % (k, n))
+    ctx.add(evaluations=nanswers, traces_validated_against_impl=len(kept), events_validated=expected_states - len(kept))
+    return paths
+
 def run(ctx):
     ctx.level = "model_checking"
     rnd = random.Random(ctx.seed * 104729 + 7)
-    with ThreadPoolExecutor(max_workers=1) as ex:
-        fut = ex.submit(hashrig.build_all, ctx, hashrig.build_matrix(ctx))
+    pkeys = probe_keys(ctx, random.Random(ctx.seed * 15485863 + 11))
+    with ThreadPoolExecutor(max_workers=2) as ex:
+        fut = ex.submit(build_all, ctx, hashrig.build_matrix(ctx))
+        fspec = ex.submit(spec_contract, ctx, pkeys)
         model_check(ctx)
         shapes = hashrig.tlc_shapes(ctx)
         builds = fut.result()
+        args, rpads = fspec.result()
+    ctx.tlc_stats(rpads, "HmacPads")
+    ctx.log("variant-argument spellings (HmacPads!HpArgs): %s" % {a: v for a, v in args.items() if v != ["-"]})
     scen, blocks, keylens = scenarios(ctx, shapes, rnd)
     ctx.log("%d scenarios, estimated reference blocks per family: %s" % (len(scen), blocks))
-    paths = hashrig.run_scenarios(ctx, builds, scen, "hmac", tlc_timeout=(600 if ctx.quick else 4000))
+    residue_probe(ctx, builds, pkeys, args)
+    paths = run_hmac(ctx, builds, scen, args, tlc_timeout=(600 if ctx.quick else 4000))
     nontriv = set((s["alg"], s["key"], s["msg"], tuple(s["chunks"])) for s in scen if len(s["msg"]) + len(s["key"]) > 0)
-    ctx.add(distinct_nontrivial=len(nontriv), scenarios=len(scen), builds=[b for b, _ in builds],
-            reference_blocks_evaluated_by_TLC=blocks,
+    ctx.add(distinct_nontrivial=len(nontriv), scenarios=len(scen), builds=[b for b, _, _ in builds],
+            reference_blocks_evaluated_by_TLC=blocks, variant_argument_spellings=args,
             key_lengths_exercised={a: sorted(v) if len(v) < 12 else "%d distinct lengths in %d..%d" % (len(v), min(v), max(v)) for a, v in keylens.items()},
             transform_paths_executed={"%s:%s" % k: v for k, v in sorted(paths.items())},
             samples=[{"alg": s["alg"], "keylen": len(s["key"]), "msglen": len(s["msg"]), "chunks": s["chunks"], "align": s["align"]} for s in scen[:3] + scen[-3:]])
-    ctx.cov["rule"] = ("scenario = (hash variant, key, message, chunking, alignment) run in every build through hmac_*_init/update/final, the "
-                       "one-shot and the hex entry point; non-trivial = key or message non-empty; distinct by (variant, key, message, chunk lengths)")
+    ctx.cov["rule"] = ("scenario = (hash variant, key, message, chunking, alignment) run in every build and under every accepted spelling of the "
+                       "variant argument through hmac_*_init/update/final, the one-shot and the hex entry point; non-trivial = key or message "
+                       "non-empty; distinct by (variant, key, message, chunk lengths)")
     ctx.assumptions += ["oracle: HmacRFC (RFC 2104 equation, specs/crypto/Hmac.tla) over the TLA+ hash references, evaluated by TLC",
                         "MAC correctness is sampled (mode C); the HMAC construction itself is model-checked over an uninterpreted hash",
-                        "the local k_ipad of hmac_*_init lives on the callee's stack and cannot be observed after return; 'pads wiped' is "
-                        "checked on k_opad and on the hash context inside the hmac context",
+                        "'pads wiped' is checked on k_opad and the hash context inside the hmac context (every scenario) and by searching the "
+                        "dead stack below the finished calls for the complete pads K0 xor ipad / K0 xor opad computed by TLC (builds without "
+                        "a sanitizer); the inner pad is a local of hmac_*_init that nothing can wipe once init has returned, so it is searched "
+                        "for after init alone as well as after final; registers and partial (< one block) remains are not examined",
                         "include/proto/radius.h users of hmac_md5 are covered by C15, not here"]
